@@ -125,7 +125,25 @@ def true_case(args):
             dh = np.linalg.norm(h - H) / np.linalg.norm(H)
             out['maxdev'] = max(out['maxdev'], de, dh)
             if de > 1e-2 or dh > 1e-2:
+                # an isolated spike?  The program takes E from potentials at points 0.001 wavelength apart and picks the
+                # order of the Gauss rule (8 / 4 / 2 points) per segment from the distance: where a threshold falls between
+                # two of these points the two potentials carry different quadrature errors and their difference a
+                # spurious term.  The true field is smooth: if the deviation at six points 0.005 wavelength around r
+                # is small, the deviation at r is such a spike (recorded finding), else the field is wrong there.
+                nb = []
+                for ax in range(3):
+                    for sg_ in (-1, 1):
+                        r2 = np.array(r, float)
+                        r2[ax] += sg_ * 0.005 * lam
+                        m.compute_near_field(tuple(r2), (1, 1, 1), (1, 1, 1), **({'pwr': pw} if pw else {}))
+                        e2, h2 = np.array(m.e_field[0]), np.array(m.h_field[0])
+                        E2, H2 = geo.true_fields(I, k, m.m, r2, 1e-4 * lam)
+                        nb.append(max(np.linalg.norm(e2 - E2 * fac) / np.linalg.norm(E2 * fac),
+                                      np.linalg.norm(h2 - H2 * fac) / np.linalg.norm(H2 * fac)))
+                spike = sorted(nb)[3] < 2e-3 and sorted(nb)[3] < 0.25 * max(de, dh) and max(de, dh) < 0.1
                 out['mism'].append(dict(what='near-field-true-kernel', dE=float(de), dH=float(dh), clearance=float(cl),
+                                        cause='isolated-spike-at-a-quadrature-order-threshold' if spike else None,
+                                        neighbours=[float(x) for x in nb],
                                         has_junction=any(x in ('J1', 'J2') for x in kinds),
                                         has_ground_pulse=any(x in ('G1', 'G2') for x in kinds)))
                 break
@@ -261,8 +279,12 @@ def run(tier):
     tj = [(r, g, C.seed(), k_) for r, g in L.long_records(chk) for k_ in range(4 if tier == 'quick' else 25)]
     frac = 0.03 if tier == 'quick' else 0.01
     for r, g, cfg in T.records(chk, 'quick', INVS):
-        if not r.get('reject') and not any(o.get('kind') == 'A' for o in r['input']) and rnd.random() < frac:
+        if not r.get('reject') and not any(o.get('kind') == 'A' for o in r['input']) and \
+                int(C.h([C.seed(), 'c04-true', r['input'], g]), 16) % 10000 < frac * 10000:
             tj.append((r, g, C.seed(), 0))
+    # the configuration on which the recorded spike was found (fixed seed: the finding stays visible in every run)
+    sentinel = T.spec_records(chk, [[dict(p1=1, p2=101, ns=2, tag=1), dict(p1=101, p2=2, ns=3, tag=0)]], True, name='c04-sentinel')[0]
+    tj.append((sentinel, True, 1, 0))
     worst = 0.0
     npts = 0
     for j, o in zip(tj, C.parallel_map(true_case, tj, chunksize=4)):
@@ -275,7 +297,8 @@ def run(tier):
         if o['exc']:
             chk.violation(dict(kind='exception', exc=o['exc'].split('(')[0]), dict(input=j[0]['input'], ground=j[1], exc=o['exc']))
         for mm in o['mism']:
-            chk.violation(dict(kind=mm['what'], has_junction=mm.get('has_junction'), has_ground_pulse=mm.get('has_ground_pulse')),
+            chk.violation(dict(kind=mm['what'], has_junction=mm.get('has_junction'), has_ground_pulse=mm.get('has_ground_pulse'),
+                               cause=mm.get('cause')),
                           dict(input=j[0]['input'], ground=j[1], info=mm, spec=j[0]))
     chk.cov['true_kernel_points_compared'] = npts
     chk.cov['true_kernel_worst_deviation'] = worst
